@@ -289,7 +289,7 @@ func checkC01() {
 		var specs []*spec.Spec
 		for i := 0; i < n; i++ {
 			prof := c01Profiles[(idx+i)%len(c01Profiles)]
-			s := gen.Generate(run.Rand(1, uint64(idx+i)), fmt.Sprintf("%d", idx+i), gen.Opts{Profile: prof, Thorough: run.Thorough()})
+			s := gen.Generate(run.Rand(1, uint64(idx+i)), fmt.Sprintf("%d", idx+i), gen.Opts{Profile: prof, Thorough: run.Thorough(), Unions: true})
 			s.AddFeature("profile-" + prof)
 			specs = append(specs, s)
 		}
@@ -409,6 +409,13 @@ func c01Trigger(sp *spec.Spec, role, dg string) string {
 		if streamMsgStringLength(sp) {
 			return "streaming-message-string-length"
 		}
+	case strings.HasSuffix(role, "/views/view.go") && (has("!= nil (mismatched types") || has("cannot indirect")):
+		// the views package validates a primitive alternative of a union with pointer semantics
+		// (findings/C01-union-view-member-validation): the diagnostic names the view type of a validated
+		// primitive alternative, <Union><Alternative>View
+		if unionViewAltNamed(sp, dg) {
+			return "view-union-primitive-alternative-validation"
+		}
 	case strings.HasPrefix(role, "cmd/") && has("undefined: httpPortF"):
 		// goa example for an API without any HTTP endpoint (golden server-sercice-for-only-grpc)
 		for _, sv := range sp.Services {
@@ -424,6 +431,48 @@ func c01Trigger(sp *spec.Spec, role, dg string) string {
 		return "example-main-of-grpc-only-api"
 	}
 	return ""
+}
+
+// unionViewAltNamed reports whether the diagnostic names the view type goa generates for a primitive
+// alternative (carrying validations) of some OneOf attribute of the design.
+func unionViewAltNamed(sp *spec.Spec, dg string) bool {
+	low := strings.ToLower(dg)
+	found := false
+	var walk func(t *spec.Type, depth int)
+	walk = func(t *spec.Type, depth int) {
+		if t == nil || depth > 12 || found {
+			return
+		}
+		switch t.Kind {
+		case spec.Array, spec.Map:
+			walk(t.Elem.Type, depth+1)
+		case spec.Object:
+			for _, a := range t.Attrs {
+				if a.Type.Kind == spec.Union {
+					for _, alt := range a.Type.Attrs {
+						if spec.IsPrim(alt.Type.Kind) && !alt.Val.Empty() && strings.Contains(low, spec.Norm(a.Name)+spec.Norm(alt.Name)+"view") {
+							found = true
+						}
+					}
+					continue
+				}
+				walk(a.Type, depth+1)
+			}
+		}
+	}
+	for _, ut := range sp.Types {
+		walk(ut.Def, 0)
+	}
+	for _, sv := range sp.Services {
+		for _, m := range sv.Methods {
+			for _, a := range []*spec.Attr{m.Payload, m.Result} {
+				if a != nil {
+					walk(a.Type, 0)
+				}
+			}
+		}
+	}
+	return found
 }
 
 // streamPayloadHas reports whether the StreamingPayload of some HTTP streaming method reaches (through
@@ -550,7 +599,7 @@ func sampleSpec(run *vc.Run, prop string, idx int) *spec.Spec {
 	id := fmt.Sprintf("%d", idx)
 	if prop == "C01" {
 		prof := c01Profiles[idx%len(c01Profiles)]
-		return gen.Generate(run.Rand(1, uint64(idx)), id, gen.Opts{Profile: prof, Thorough: run.Thorough()})
+		return gen.Generate(run.Rand(1, uint64(idx)), id, gen.Opts{Profile: prof, Thorough: run.Thorough(), Unions: true})
 	}
 	var c *rtCheck
 	switch prop {
@@ -574,5 +623,5 @@ func sampleSpec(run *vc.Run, prop string, idx int) *spec.Spec {
 		return nil
 	}
 	prof := c.Profiles[idx%len(c.Profiles)]
-	return gen.Generate(run.Rand(2, uint64(idx)), id, gen.Opts{Profile: prof, Runtime: true, Thorough: run.Thorough(), Files: c.AllowFiles, Streams: c.Streams})
+	return gen.Generate(run.Rand(2, uint64(idx)), id, gen.Opts{Profile: prof, Runtime: true, Thorough: run.Thorough(), Files: c.AllowFiles, Streams: c.Streams, Unions: c.Unions})
 }
